@@ -50,6 +50,8 @@ for p in modified:
                     r'(import ScalesModel\.Adapter\.\w+\n)(?!import)', r'\1' + l + '\n', cur, count=1)
                 print('driver import:', l)
             m = re.match(r'\s*⟨"(\w+)",\s*(.*?)⟩,?\s*$', l)
+            if m and ('"%s"' % m.group(1)) in cur and l.strip().rstrip(',') not in cur:
+                print('CHANGED DRIVER ENTRY (apply by hand):', l.strip())
             if m and ('"%s"' % m.group(1)) not in cur:
                 cur = re.sub(r'\n\]', ',\n  ⟨"%s", %s⟩\n]' % (m.group(1), m.group(2)), cur, count=1)
                 print('driver component:', m.group(1))
